@@ -1,7 +1,7 @@
 (** C14 — property theorems (statements only; proofs in Proofs_C14.v). *)
 From Coq Require Import ZArith List.
 From AwkV Require Import Base Layout.
-From AwkBuilder Require Import Builder Spec GbLemmas Invariant Phys PhysSeq Proofs_C14.
+From AwkBuilder Require Import Builder Spec GbLemmas Invariant Same Phys PhysSeq Proofs_C14.
 Import ListNotations.
 Open Scope Z_scope.
 
